@@ -230,14 +230,17 @@ def fault_oracle(res, sw):
             if o.name in ("cab_new", "chm_new", "szdd_new", "kwaj_new", "oab_new"): continue
             if "st" in o.kv: okst = o.kv["st"] == "0"
             else: okst = o.kv.get("ok") == "1" and o.kv.get("err", "0") == "0"     # pointer-returning calls: last_error() is the status
-            if not okst: continue
-            checked += 1
             co = clean.get(k_)
-            if co is None: continue
-            if (tuple(co.lines), co.out, co.outlen) != (tuple(o.lines), o.out, o.outlen) or (co.kv.get("st"), co.kv.get("ok")) != (o.kv.get("st"), o.kv.get("ok")):
-                why = "%s reported success with a result different from the failure-free run (outlen %s vs %s)" % (o.name, o.outlen, co.outlen)
-                if res.violation("%s: %s" % (label, why), sc.text() + "\n# " + why, key="fault-ok:%s:%s" % (o.name, kind)): n += 1
-                break
+            same = co is not None and (tuple(co.lines), co.out, co.outlen) == (tuple(o.lines), o.out, o.outlen) and (co.kv.get("st"), co.kv.get("ok")) == (o.kv.get("st"), o.kv.get("ok"))
+            if okst and co is not None:
+                checked += 1
+                if not same:
+                    why = "%s reported success with a result different from the failure-free run (outlen %s vs %s)" % (o.name, o.outlen, co.outlen)
+                    if res.violation("%s: %s" % (label, why), sc.text() + "\n# " + why, key="fault-ok:%s:%s" % (o.name, kind)): n += 1
+                    break
+            # on an input that is not well-formed the first call that goes differently is the call the failure hit; what later calls
+            # do then depends on the decoder state that call left behind (C08 covers histories on damaged folders, not this property)
+            if not same and not sw.cases[i].wellformed: break
     return n, checked
 
 def fill_oracle(res, cases, exe, fills=(0x00, 0xFF, 0xA5, 0x04)):
